@@ -33,9 +33,10 @@ from whoosh.support.charset import accent_map
 
 concrete_arrays()
 
-ATOMS = [u"alfa", u"Bravo", u" ", u"-", u"Wi", u"Fi", u"the", u"running", u"2000", u"é", u"&", u"<b>", u". ", u",",
-         u"_", u"'s", u"ß", u"http://a.b/c?d=1", u"\U0001F600", u"x" * 70, u"日本", u"ICs",
-         u"\t", u"@", u"a", u"to", u"PowerShot", u"&amp;", u"\n", u"ü"]
+ATOMS = [u"alfa", u"Bravo", u" ", u"-", u"Wi-Fi ", u"Fi", u"the", u"running", u"2000", u"é", u"&amp;", u"<b>", u". ", u"PowerShot ",
+         u"Wi", u"&", u",", u"_",
+         u"'s", u"ß", u"http://a.b/c?d=1", u"\U0001F600", u"x" * 70, u"日本", u"ICs",
+         u"\t", u"@", u"a", u"to", u"\n", u"ü"]
 NA = tiered(14, 18)       # quick: the first 14 atoms, thorough: the first 18 (the full table is swept concretely during development only)
 
 
@@ -90,8 +91,10 @@ def toklist(ana, text, **kw):
 
 def strip_html(s):
     marked = [unescape(m) for m in re.findall(r"<strong[^>]*>(.*?)</strong>", s, re.S)]
-    plain = unescape(re.sub(r"</?strong[^>]*>", u"", s))
-    return plain, marked
+    bare = re.sub(r"</?strong[^>]*>", u"", s)
+    if u"<" in bare or u">" in bare:
+        return None, bare         # the text between the formatter's own tags must be escaped
+    return unescape(bare), marked
 
 
 def check(ai, text):
@@ -183,6 +186,8 @@ def check(ai, text):
                     for piece in out.split(SEP):
                         if foname == "Html":
                             plain, marked = strip_html(piece)
+                            if plain is None:
+                                return "%s: highlights(%s, Html) for %r piece %r contains unescaped markup characters" % (where, fname, term, piece)
                             if plain not in text:
                                 return "%s: highlights(%s, Html) for %r piece %r, stripped %r, is not a substring of the text" % (where, fname, term, piece, plain)
                             for m in marked:
@@ -193,6 +198,8 @@ def check(ai, text):
                                 return "%s: highlights(%s, Uppercase) for %r piece %r is not a substring of the text (case-insensitively)" % (where, fname, term, piece)
                     if foname == "Html" and fname == "Whole":
                         plain, marked = strip_html(out)
+                        if plain is None:
+                            return "%s: highlights(Whole, Html) output %r contains unescaped markup characters" % (where, out)
                         if plain != text:
                             return "%s: highlights(Whole, Html) stripped is %r, not the whole text" % (where, plain)
                         if sum(len(m_) for m_ in marked) < max(ec - sc for sc, ec in rngs) or not marked:
@@ -215,10 +222,10 @@ def _mk(ai):
     while "__" in name:
         name = name.replace("__", "_")
 
-    @h(bounds="analyzer %s; every text of %d atoms from a %d-atom alphabet (mixed case, hyphen%s, stop word, inflected word, digits, accent, '&', '<b>', "
+    @h(bounds="analyzer %s; every text of %d atoms from a %d-atom alphabet (mixed case, hyphen%s, compound words followed by a space, stop word, inflected word, digits, accent, '&amp;', '<b>', "
               "punctuation); Term per index token, query-time conjunction, parser term_query, phrases of 2 and 3 consecutive positions, position monotonicity, "
               "offsets, highlights with 4 fragmenters x 2 formatters"
-              % (ANALYZERS[ai][0], LQ, NA, "/underscore/apostrophe, sharp s, URL" if THOROUGH else ""),
+              % (ANALYZERS[ai][0], LQ, NA, "/underscore, '&', comma" if THOROUGH else ""),
        funcs=FUNCS, examples=[dict(a=0, b=2, c=1), dict(a=4, b=3, c=5)], timeout=dict(quick=900, thorough=3000),
        outside="texts of more than 3 atoms, atoms outside the alphabet, analyzers not in the table (other languages' stemmers, custom chains)")
     def harness(a: int, b: int, c: int) -> Optional[str]:
